@@ -159,7 +159,7 @@ def _split_facts(f, plist):
     return None
 
 
-def drive(ctx, bins, progs, taint=(), backtrace=(), nproc=None, timeout=300, pointer=(), escape=(), iso_timeout=90):
+def drive(ctx, bins, progs, taint=(), backtrace=(), nproc=None, timeout=600, pointer=(), escape=(), iso_timeout=150):
     """run the real analyses (semdrive) module by module (parallel); a module whose run fails is re-run program by
     program (in parallel, short timeout) so that one crashing or diverging program does not take the facts of the
     others with it.  Sets p.facts / p.absent.  Divergence of an analysis is C07's subject: here it only makes the
@@ -653,10 +653,12 @@ def calls_check(ctx, whats, prop_text):
                 prop_text, what, chain, bits_of(m["dec"])),
                 {"main.go": open(os.path.join(p.dir, "main.go")).read(), "prog.json": json.dumps(p.flat),
                  "facts.json": json.dumps(p.facts)}, key="%s/%s/%s" % (ctx.prop, m["what"], json.dumps(chain)))
+    nstd = stdcb_check(ctx, bins, whats, prop_text)
     ncalls = len({(t["prog"].idx, t["ev"]["a"], t["ev"]["s"]) for t in truth if t["ev"]["e"] in ("call", "go")})
     mid = ok[len(ok) // 2]
     ctx.sample({"chain": mid.meta.get("chain"), "main.go": open(os.path.join(mid.dir, "main.go")).read()[-1200:],
                 "edges": mid.facts["pointer"]["ptr"]["edges"]})
+    ctx.extra["std_callback_programs"] = nstd
     ctx.extra.update({"programs": len(progs), "programs_checked": len(ok), "facts_absent": len(absent),
                       "exhaustive_chains": nexh, "simulated_chains": len(sim), "runtime_call_events": ncalls,
                       "native_runs": ctx.traces})
@@ -666,6 +668,70 @@ def calls_check(ctx, whats, prop_text):
     ctx.finish_args = dict(exhaustive=True, evaluations=len(progs), distinct=len(progs),
                            rule="one case = one generated program (chain of call/closure/interface/defer steps, "
                                 "TLC-enumerated from ProgSpace); distinct = distinct chains")
+
+
+def stdcb_check(ctx, bins, whats, prop_text):
+    """programs whose run-time calls go through the standard library (corpus/stdcb): the native run is the oracle
+    (enter() log), the real reachable sets are the facts, Obs_Exec.tla decides ExecOK / ReachOK / RelOK"""
+    import shutil
+    root = os.path.join(ctx.work, "stdcb")
+    os.makedirs(root)
+    with open(os.path.join(root, "go.mod"), "w") as fh:
+        fh.write("module prog\n\ngo 1.22\n")
+    with open(os.path.join(root, "ptr.yaml"), "w") as fh:
+        fh.write("options:\n  log-level: 1\n")
+    here = os.path.dirname(os.path.abspath(__file__))
+    src = os.path.join(vlib.VERIF, "corpus", "stdcb")
+    names = sorted(d for d in os.listdir(src) if os.path.isdir(os.path.join(src, d)))
+    recs = []
+    for n in names:
+        d = os.path.join(root, n)
+        shutil.copytree(os.path.join(src, n), d)
+        for f in ("roles_stub.go", "roles_native.go"):
+            shutil.copy(os.path.join(here, "roles", f), d)
+    q = subprocess.run(["go", "build", "-p", "4", "-tags", "native", "-o", os.path.join(root, "bin") + "/"] + ["./" + n for n in names],
+                       cwd=root, env=vlib.goenv(), stdout=subprocess.PIPE, stderr=subprocess.STDOUT, text=True, timeout=1200)
+    if q.returncode != 0:
+        raise Inconclusive("std-callback corpus does not build natively: " + q.stdout[-2000:])
+    for n in names:
+        r = subprocess.run([os.path.join(root, "bin", n)], env=dict(os.environ, NATIVE_SCRIPTS="0"), stdout=subprocess.PIPE,
+                           stderr=subprocess.PIPE, text=True, timeout=120)
+        if r.returncode != 0:
+            raise Inconclusive("std-callback program %s failed natively: %s" % (n, r.stderr[-1000:]))
+        run = json.loads(r.stdout.splitlines()[0])
+        executed = sorted({e["a"] for e in run["events"] if e["e"] == "enter"})
+        f, err = _semdrive(bins, root, "./" + n, (), (), os.path.join(root, n, "facts.json"), 900, pointer=["ptr"])
+        if f is None or f.get("loaderr") or f["pointer"]["ptr"].get("err") or f["pointer"]["ptr"].get("panic"):
+            raise Inconclusive("no pointer facts for std-callback program %s: %s" % (n, err or json.dumps(f)[:800]))
+        t = f["pointer"]["ptr"]
+        # functions are identified by declaration line; the corpus keeps its declarations below line 40, where the
+        # role files have none
+        L = lambda lst: sorted({e["line"] for e in lst if e["line"] > 40})
+        recs.append({"prog": n, "executed": [x for x in executed if x > 40], "reach": L(t["reach"]), "allfuncs": L(t["allfuncs"]),
+                     "fr_all": L(t["findreach"]["all"]), "fr_nomain": L(t["findreach"]["nomain"]),
+                     "fr_noinit": L(t["findreach"]["noinit"]), "fr_none": L(t["findreach"]["none"])})
+        if len(recs[-1]["executed"]) < 5:
+            raise Inconclusive("std-callback program %s executed only %s" % (n, recs[-1]["executed"]))
+    r = ctx.tlc_must_pass("Obs_Exec", data={"exec.ndjson": vlib.ndjson(recs)}, subdir="obs-exec", timeout=600, deadlock=False)
+    fp = os.path.join(r.dir, "exec_fail.ndjson")
+    if "OBS_EXEC" not in r.out or not os.path.exists(fp):
+        raise Inconclusive("Obs_Exec.tla did not reach its postcondition:\n" + r.out[-2000:])
+    ctx.traces += len(recs)
+    want = {"exec"} if "exec" in whats else set()
+    want |= {"reach", "relations"} if "reach" in whats else set()
+    for fl in vlib.read_ndjson(fp):
+        if fl["what"] not in want:
+            continue
+        rec = [x for x in recs if x["prog"] == fl["prog"]][0]
+        srcs = open(os.path.join(root, fl["prog"], "main.go")).read().split("\n")
+        names_ = [srcs[l - 1].strip() for l in fl["lines"] if 0 < l <= len(srcs)]
+        what = {"exec": "functions executed natively are not in the analyzer's reachable-function set",
+                "reach": "functions executed natively are not reported by the reachability analysis",
+                "relations": "the reported reachable sets violate the subset relations of the property"}[fl["what"]]
+        ctx.violation("%s: %s: %s (std-callback corpus program %s; the native run logged their enter())" % (
+            prop_text, what, names_, fl["prog"]),
+            {"main.go": "\n".join(srcs), "record.json": json.dumps(rec)}, key="%s/stdcb/%s/%s" % (ctx.prop, fl["prog"], fl["what"]))
+    return len(recs)
 
 
 ALIAS_FAMS = ["value", "field", "container", "call", "closure", "global", "iface", "defer"]
@@ -702,7 +768,13 @@ def alias_check(ctx):
     if not thorough:
         random.Random(ctx.seed + 5).shuffle(agg)
         agg = sorted(agg[:200])
-    chains = sorted(set(chains) | set(agg))
+    # pointers to pointer-like variables (indirect queries), read directly and through the call-free accessor
+    ind = enum_chains(ctx, 3, ["plain"], maxdeco=0, tag="indirect", fams=["container", "call"])
+    ind = sorted({tuple(c) for c in ind if any(s_ == "addrsl" and j < len(c) - 1 for j, (s_, d) in enumerate(c))} - set(chains))
+    if not thorough:
+        random.Random(ctx.seed + 6).shuffle(ind)
+        ind = sorted(ind[:120] + [c for c in ind if any(s_ == "slotsl" for s_, _ in c)][:40])
+    chains = sorted(set(chains) | set(agg) | set(ind))
     nexh = len(chains)
     sim = enum_chains(ctx, 5, semgen.DECORATIONS, maxdeco=2, simulate=(3000 if thorough else 400), depth=6, tag="sim",
                       fams=ALIAS_FAMS)
@@ -720,6 +792,12 @@ def alias_check(ctx):
             len(absent), len(progs), absent[0][0].meta, absent[0][1]))
     truth, misses = tlc_batches(ctx, ok, "Obs_Alias", "Obs_Alias.cfg", alias_facts_of, nbatch=8,
                                 timeout=3000 if thorough else 1200)
+    nip = len({(t["prog"].idx, t["ev"]["a"], t["ev"]["b"]) for t in truth if t["ev"]["e"] == "iprobe"})
+    npar = len({(t["prog"].idx, t["ev"]["s"], t["ev"]["a"]) for t in truth if t["ev"]["e"] == "iparam"})
+    niq = sum(1 for p_ in ok for e in p_.facts["pointer"]["ptr"]["probes"] if e.get("iquery"))
+    if nip == 0 or npar == 0 or niq == 0:
+        raise Inconclusive("vacuous: %d indirect probe observations, %d indirect parameter observations, %d probes with an "
+                           "indirect query" % (nip, npar, niq))
     nat = native_subset(ctx, ok, misses, 1000 if thorough else 120)
     native_all(ctx, nat)
     # GoSem under test: same-type run-time alias pairs predicted = observed natively
@@ -786,12 +864,7 @@ def alias_check(ctx):
                            "facts.json": json.dumps(p.facts)}, key="C11/%s/%s" % (m["what"], json.dumps(chain)))
     npr = len({(t["prog"].idx, t["ev"]["a"], t["ev"]["b"]) for t in truth if t["ev"]["e"] == "probe"})
     nal = len({(t["prog"].idx, t["ev"]["a"], t["ev"]["b"]) for t in truth if t["ev"]["e"] == "alias"})
-    nip = len({(t["prog"].idx, t["ev"]["a"], t["ev"]["b"]) for t in truth if t["ev"]["e"] == "iprobe"})
-    npar = len({(t["prog"].idx, t["ev"]["s"], t["ev"]["a"]) for t in truth if t["ev"]["e"] == "iparam"})
-    niq = sum(1 for p_ in ok for e in p_.facts["pointer"]["ptr"]["probes"] if e.get("iquery"))
-    if nip == 0 or npar == 0 or niq == 0:
-        raise Inconclusive("vacuous: %d indirect probe observations, %d indirect parameter observations, %d probes with an "
-                           "indirect query" % (nip, npar, niq))
+
     mid = ok[len(ok) // 2]
     ctx.sample({"chain": mid.meta.get("chain"), "main.go": open(os.path.join(mid.dir, "main.go")).read()[-1200:],
                 "probes": mid.facts["pointer"]["ptr"]["probes"]})
@@ -799,7 +872,8 @@ def alias_check(ctx):
                       "exhaustive_chains": nexh, "simulated_chains": len(sim), "probe_observations": npr,
                       "runtime_alias_pairs": nal, "native_runs": ctx.traces, "programs_run_natively": len(nat),
                       "indirect_probe_observations": nip, "indirect_param_observations": npar,
-                      "probes_with_indirect_query": niq, "aggregate_phi_chains": len(agg)})
+                      "probes_with_indirect_query": niq, "aggregate_phi_chains": len(agg),
+                      "indirect_query_chains": len(ind)})
     ctx.assumptions += ["GoSem object identities are checked against native addresses (same-type alias pairs over all "
                         "6-bit decision scripts) on every program with a miss and a seeded sample; allocation sites "
                         "are attributed by GoSem (line of the allocating statement)"]
